@@ -27,7 +27,7 @@ def rcerts(c, model, sc):
     lines = ["codec.rcert %s %d" % (sc.sid, inst["idx"]) for inst, it in sc.items]
     out = run_lines(model, lines, prefix=ra.prefix(sc))
     res = {}
-    tot = c.extra.setdefault("certificates", {"evaluated": 0, "closed": 0, "ranked": 0, "capfree": 0, "termination_guard": 0, "productive": 0})
+    tot = c.extra.setdefault("certificates", {"evaluated": 0, "closed": 0, "ranked": 0, "capfree": 0, "termination_guard": 0, "validity_guard": 0, "productive": 0})
     for (inst, it), a in zip(sc.items, out):
         if not a.startswith("ok "):
             c.proof_failures.append({"stage": "certificate", "schema": sc.sid, "type": inst["tlname"], "detail": a})
@@ -39,6 +39,7 @@ def rcerts(c, model, sc):
         tot["ranked"] += r["ranked"] and r["bounded"]
         tot["capfree"] += r["capfree"]
         tot["termination_guard"] += r["guard"] and r["closed"]
+        tot["validity_guard"] += r["fillok"] and r["closed"]
         tot["productive"] += r["productive"]
     return res
 
@@ -54,6 +55,15 @@ def run(c):
     rng = c.rng
     per = 40 if c.thorough else 8
     reproduced = set()
+    # the RandGenerator primitives themselves (RandomUint weight table, RandomSize/LimitValue, RandomFieldMask, Int/Long/Uint64,
+    # Float/Double bits, Byte, String, Increase/DecreaseDepth incl. saturation) on a fixed schedule
+    if schemas:
+        sc0 = schemas[0]
+        plines = ["codec.rgp %s %d %d" % (sc0.sid, rng.below(2 ** 63), rng.choice([12, 60, 600, 6000, 24000])) for _ in range(400 if c.thorough else 120)]
+        for l, a, b in c.tie("rgp", plines, sc0.impl, model, prefix=[sc0.desc_line()]):
+            o = dict(p.split("=") for p in a.split(" ")[1:] if "=" in p)
+            if not a.startswith("ok ") or int(o.get("maxsize", "0")) >= 1024:
+                c.oracle_fail(l, "RandomSize exceeds the LimitValue bound (1023) or the primitive schedule failed: " + a[:80], l)
     for sc in schemas:
         if not ra.export_ginfo(c, hginfo, sc):
             continue
